@@ -80,7 +80,7 @@ func TestVerif_C01_h3retry(t *testing.T) {
 		ga, gb := 1+r.Intn(250), r.Intn(251)
 		data := verifh.C01GenBody(size, ga, gb)
 		reused := r.Intn(4) != 0
-		errKind := verifh.Pick(r, []string{"T", "T", "C", "C", "O", "A"})
+		errKind := verifh.Pick(r, []string{"T", "T", "C", "C", "O", "O3", "A"})
 		consume := verifh.Pick(r, []int{0, 0, 1, size / 2, size})
 		if kind == "none" || kind == "nobody" {
 			consume = 0
@@ -94,6 +94,12 @@ func TestVerif_C01_h3retry(t *testing.T) {
 			first = &quic.ApplicationError{Remote: true, ErrorCode: 0x100}
 		case "O":
 			first = errors.New("c01: some other failure")
+		case "O3":
+			// what SingleDestinationRoundTripper.RoundTrip really returns for a connection closed
+			// with an application error: maybeReplaceError turns it into *http3.Error, which
+			// isConnectionError does not recognise — error class "other"
+			first = maybeReplaceError(&quic.ApplicationError{Remote: true, ErrorCode: 0x100})
+			errKind = "O"
 		}
 		rt := &RoundTripper{Options: &transport.Options{}}
 		dials := 0
